@@ -9,6 +9,7 @@ import math
 import numpy as np
 
 from vkit import lens as L
+from vkit import monitors, suite_monitor
 from vkit.oracles import shapes as S
 
 ID = 'C02'
@@ -42,7 +43,21 @@ ANCHORS = [('optiland.surfaces.standard_surface', 'Surface._trace_real'),
 
 def fixed_cases(tier):
     from vkit import samples
-    return [dict(kind='sample', name=n) for n in samples.names()]
+    suite = dict(kind='repo-suite', tests=(['tests'] if tier == 'thorough' else ['tests/test_rays.py', 'tests/test_optic.py', 'tests/test_standard_surface.py', 'tests/test_wavelength.py', 'tests/test_coatings.py']))
+    return [suite] + [dict(kind='sample', name=n) for n in samples.names()]
+
+
+def shard_setup(rec):
+    log = monitors.MonitorLog()
+    rec._mlog = log
+    return monitors.install_contracts(log, which=('unitdir',))
+
+
+def shard_finish(rec):
+    log = rec._mlog
+    for name, n in log.evals.items():
+        bad = [b for b in log.bad if b[0] == name]
+        rec.check(name, not bad, n=n, msg=f'{name} broken (non-unit direction out of RealRays.refract/reflect): {bad[:2]}')
 
 
 def gen_case(rng, tier, i):
@@ -171,6 +186,10 @@ def classify_off_surface(sh, s, fr, P0, D0, pl_rec, near_par, tol_s):
 
 
 def check_case(case, rec):
+    if case['kind'] == 'repo-suite':
+        # the repository's own tests as one more workload for the contract monitor (unit direction after refract/reflect)
+        suite_monitor.record(rec, suite_monitor.run(('unitdir',), case['tests']), ['C02.unit-direction'])
+        return
     if case['kind'] == 'sample':
         from vkit import samples
         lens = samples.make(case['name'])
